@@ -148,10 +148,11 @@ impl UnitQuaternion {
     #[verifier::external_body]
     pub fn to_rotation_matrix(&self) -> (r: Rotation3)
         ensures self.qfin() ==> r.mfin() && r.m() == self.m() { unimplemented!() }
-    /// `from_rotation_matrix` of a proper rotation reproduces it (nalgebra; assumed)
+    /// `from_rotation_matrix` of a proper ROTATION (orthogonal, determinant +1) reproduces it (nalgebra; assumed).  The hypothesis is
+    /// part of the contract: for any other matrix nalgebra returns some unit quaternion and nothing is claimed.
     #[verifier::external_body]
     pub fn from_rotation_matrix(rot: &Rotation3) -> (r: UnitQuaternion)
-        ensures rot.mfin() ==> r.qfin() && r.m() == rot.m(), r == quat_of_rot_s(*rot) { unimplemented!() }
+        ensures rot.mfin() && proper(rot.m()) && mdet(rot.m()) == 1real ==> r.qfin() && r.m() == rot.m(), r == quat_of_rot_s(*rot) { unimplemented!() }
     #[verifier::external_body]
     pub fn from_axis_angle(axis: &UnitVector3, angle: f64) -> (r: UnitQuaternion)
         ensures fin(angle) ==> r.qfin()
@@ -343,12 +344,12 @@ pub broadcast axiom fn ax_rot_of_mat(m: Matrix3)
     ensures
         #![trigger rot_of_mat_s(m)]
         forall|i: int, j: int| rot_of_mat_s(m).e(i, j) == m.e(i, j);
-/// `UnitQuaternion::from_rotation_matrix(r)` reproduces the rotation matrix (spec-level restatement of the exec contract
-/// above; nalgebra guarantees it for proper rotations - the callers' matrices are proved orthogonal, det = +1 is not mechanised)
+/// `UnitQuaternion::from_rotation_matrix(r)` reproduces the matrix of a proper rotation: orthogonal, determinant +1 (spec-level
+/// restatement of the exec contract above; both hypotheses are PROVED at every use)
 pub broadcast axiom fn ax_quat_of_rot(r: Rotation3)
     ensures
         #![trigger quat_of_rot_s(r)]
-        r.mfin() ==> quat_of_rot_s(r).qfin() && quat_of_rot_s(r).m() == r.m();
+        r.mfin() && proper(r.m()) && mdet(r.m()) == 1real ==> quat_of_rot_s(r).qfin() && quat_of_rot_s(r).m() == r.m();
 /// `q.transform_point(&p)` == R(q) p
 pub broadcast axiom fn ax_transform_point(q: UnitQuaternion, p: Point3)
     ensures
